@@ -47,6 +47,15 @@ func main() {
 		cmdEngineInner()
 	case "tagaudit":
 		cmdTagAudit()
+	case "prelude-probe":
+		// prints the probed-consistency script (debugging view of the vacuity guard)
+		p, err := loadAll()
+		if err != nil {
+			fmt.Fprintln(os.Stderr, "load:", err)
+			os.Exit(2)
+		}
+		native := len(os.Args) > 2 && os.Args[2] == "native"
+		fmt.Print(p.prelude(native) + preludeProbe(p.prelude(native)) + "(check-sat)\n")
 	case "matrix":
 		cmdMatrix(os.Args[2:])
 	case "locals":
